@@ -26,7 +26,11 @@ Proof.
         split; [constructor; [apply NC; assumption|assumption]|exact IHt].
 Qed.
 
+Lemma bcase (P : bool -> Prop) : P true -> P false -> forall b, P b.
+Proof. intros T F b; destruct b; assumption. Qed.
+
 Section Framing.
+  Variable brk : bool.
   Variable eager : bool.
   Variable B : nat.
   Hypothesis HB : 2 <= B.
@@ -39,7 +43,7 @@ Section Framing.
   Fixpoint SA (k : nat) (ls : list (list N)) (tl : list N) : res (option (list N * nat)) :=
     match ls with
     | [] => match tl with
-            | [] => Ok None
+            | [] => if brk then Fail else Ok None
             | _ => if tail_fits eager B tl
                    then (if action_ok k tl then Ok (Some ([], S k)) else Fail)
                    else Fail
@@ -64,50 +68,52 @@ Section Framing.
     end.
 
   Lemma skip_action_join : forall ls tl k f, wf ls tl -> length (join_lines ls tl) < f ->
-    skip_action eager B f (join_lines ls tl) k = SA k ls tl.
+    skip_action_t brk eager B f (join_lines ls tl) k = SA k ls tl.
   Proof.
     induction ls as [|l r IH]; intros tl k f [WF WT] F.
     - simpl in *. destruct f; [lia|]. simpl.
       destruct tl as [|c0 t0] eqn:ET.
-      + rewrite rl_nil; auto.
+      + rewrite rl_nil; auto. pattern brk; apply bcase; reflexivity.
       + rewrite <- ET in *. assert (NE : tl <> []) by (rewrite ET; discriminate).
         destruct (tail_fits eager B tl) eqn:TF.
         * rewrite rl_tail_fit; auto. rewrite ET. rewrite <- ET. reflexivity.
-        * destruct (rl_tail_big eager B HB tl WT TF) as (c & l' & E & _ & _). rewrite E. destruct c; reflexivity.
+        * destruct (rl_tail_big brk eager B HB tl WT TF) as (c & l' & E & _ & _). rewrite E. destruct c; reflexivity.
     - inversion WF; subst. rewrite join_length_cons in F. destruct f; [lia|].
-      simpl join_lines. simpl SA. simpl skip_action.
+      simpl join_lines. simpl SA. simpl skip_action_t.
       destruct (Nat.ltb (length l) B) eqn:LT.
       + apply Nat.ltb_lt in LT. rewrite rl_fit; auto.
         destruct (strip_cr l) eqn:SC.
         * apply IH; [split; assumption|lia].
         * reflexivity.
       + apply Nat.ltb_ge in LT.
-        destruct (rl_big eager B HB l (join_lines r tl) H1 LT) as (c & l' & E & _ & _). rewrite E. destruct c; reflexivity.
+        destruct (rl_big brk eager B HB l (join_lines r tl) H1 LT) as (c & l' & E & _ & _). rewrite E. destruct c; reflexivity.
   Qed.
 
   Lemma read_doc_join : forall ls tl f, wf ls tl -> length (join_lines ls tl) < f ->
-    read_doc eager B f (join_lines ls tl) = RD ls tl.
+    read_doc_t brk eager B f (join_lines ls tl) = RD ls tl \/
+    (brk = true /\ read_doc_t brk eager B f (join_lines ls tl) = Fail).
   Proof.
     intros ls tl f [WF WT] F. destruct ls as [|l r]; simpl in *.
-    - unfold read_doc. destruct tl as [|c0 t0] eqn:ET.
-      + rewrite rl_nil; auto.
+    - unfold read_doc_t. destruct tl as [|c0 t0] eqn:ET.
+      + left. rewrite rl_nil; auto. pattern brk; apply bcase; reflexivity.
       + rewrite <- ET in *. assert (NE : tl <> []) by (rewrite ET; discriminate).
         destruct (tail_fits eager B tl) eqn:TF.
-        * rewrite rl_tail_fit; auto.
-        * destruct (rl_tail_big eager B HB tl WT TF) as (c & l' & E & H' & L'). rewrite E.
-          rewrite (skip_big_tail eager B HB (length l') l' f); auto. lia.
-    - inversion WF; subst. rewrite app_length in F. simpl in F. unfold read_doc.
+        * left. rewrite rl_tail_fit; auto.
+        * destruct (rl_tail_big brk eager B HB tl WT TF) as (c & l' & E & H' & L'). rewrite E.
+          destruct (skip_big_tail brk eager B HB (length l') l' f) as [SK|[BT SK]]; auto; [lia| |];
+            rewrite SK; [left; reflexivity|right; split; [exact BT|reflexivity]].
+    - left. inversion WF; subst. rewrite app_length in F. simpl in F. unfold read_doc_t.
       destruct (Nat.ltb (length l) B) eqn:LT.
       + apply Nat.ltb_lt in LT. rewrite rl_fit; auto.
       + apply Nat.ltb_ge in LT.
-        destruct (rl_big eager B HB l (join_lines r tl) H1 LT) as (c & l' & E & H' & L'). rewrite E.
-        rewrite (skip_big_line eager B HB (length l') l' _ f); auto. lia.
+        destruct (rl_big brk eager B HB l (join_lines r tl) H1 LT) as (c & l' & E & H' & L'). rewrite E.
+        rewrite (skip_big_line brk eager B HB (length l') l' _ f); auto. lia.
   Qed.
 
   (* the loop at the level of lines *)
   Fixpoint mach (k : nat) (ll : list lline) (acc : list (list N)) : outcome :=
     match ll with
-    | [] => Accepted (rev acc)
+    | [] => if brk then Rejected else Accepted (rev acc)
     | Big :: _ => Rejected
     | Fit [] :: r => mach k r acc
     | Fit a :: r =>
@@ -156,28 +162,45 @@ Section Framing.
       else Rejected.
   Proof. destruct a; [congruence|reflexivity]. Qed.
 
-  Lemma run_nil f k acc : 0 < f -> run eager B classify f [] k acc = Accepted (rev acc).
+  Lemma run_nil f k acc : 0 < f ->
+    run_t brk eager B classify f [] k acc = if brk then Rejected else Accepted (rev acc).
   Proof.
-    intros F. destruct f; [lia|]. simpl. rewrite rl_nil; auto.
+    intros F. destruct f; [lia|]. simpl. rewrite rl_nil; auto. pattern brk; apply bcase; reflexivity.
+  Qed.
+
+  (* on a broken stream the line-level loop never accepts *)
+  Lemma mach_rej : brk = true -> forall n ll k acc, length ll <= n -> mach k ll acc = Rejected.
+  Proof.
+    intros BT. induction n; intros ll k acc L.
+    - destruct ll; [|simpl in L; lia]. simpl. rewrite BT. reflexivity.
+    - destruct ll as [|x r]; [simpl; rewrite BT; reflexivity|].
+      destruct x as [a|]; [|reflexivity].
+      destruct a as [|a0 a1]; [simpl; apply IHn; simpl in L; lia|].
+      cbn [mach]. destruct (action_ok k (a0 :: a1)); [|reflexivity].
+      destruct r as [|y r']; [reflexivity|].
+      assert (L' : length r' <= n) by (simpl in L; lia).
+      destruct y as [d|]; [|apply IHn; auto].
+      destruct d as [|d0 d1]; [reflexivity|].
+      destruct (cls (d0 :: d1)); [| |reflexivity]; apply IHn; auto.
   Qed.
 
   Lemma run_sim : forall n ls tl k acc f, length ls <= n -> wf ls tl -> length (join_lines ls tl) < f ->
-    run eager B classify f (join_lines ls tl) k acc = mach k (LL ls tl) acc.
+    run_t brk eager B classify f (join_lines ls tl) k acc = mach k (LL ls tl) acc.
   Proof.
     induction n; intros ls tl k acc f LN WFF F.
     - destruct ls; [|simpl in LN; lia].
-      destruct f; [lia|]. cbn [run]. rewrite skip_action_join; auto.
+      destruct f; [lia|]. cbn [run_t]. rewrite skip_action_join; auto.
       unfold LL. cbn [map app].
-      destruct (nil_dec tl) as [->|NE]; [reflexivity|].
+      destruct (nil_dec tl) as [->|NE]; [cbn [SA tail_lline mach]; pattern brk; apply bcase; reflexivity|].
       rewrite SA_nil_ne, tail_lline_ne; auto.
       destruct (tail_fits eager B tl) eqn:TF; [|reflexivity].
       rewrite mach_fit_ne; auto.
       destruct (action_ok k tl); [|reflexivity].
-      unfold read_doc. rewrite rl_nil; auto.
+      unfold read_doc_t. rewrite rl_nil; auto. pattern brk; apply bcase; reflexivity.
     - destruct ls as [|l r].
       { apply IHn; auto. simpl; lia. }
       destruct WFF as [WF WT]. inversion WF as [|? ? Hl Hr]; subst.
-      destruct f; [lia|]. cbn [run]. rewrite skip_action_join; [|split; auto|auto].
+      destruct f; [lia|]. cbn [run_t]. rewrite skip_action_join; [|split; auto|auto].
       pose proof F as F0. rewrite join_length_cons in F.
       unfold LL. cbn [map app SA]. unfold lline_of at 1.
       destruct (Nat.ltb (length l) B) eqn:LT; [|reflexivity].
@@ -185,16 +208,18 @@ Section Framing.
       + (* blank line before the action line *)
         cbn [mach].
         assert (F1 : length (join_lines r tl) < S f) by lia.
-        specialize (IHn r tl k acc (S f)). cbn [run] in IHn.
+        specialize (IHn r tl k acc (S f)). cbn [run_t] in IHn.
         rewrite skip_action_join in IHn; [|split; auto|auto].
         apply IHn; [simpl in LN; lia|split; auto|auto].
-      + cbn [mach]. destruct (action_ok k (a0 :: a1)); [|reflexivity].
-        rewrite read_doc_join; [|split; auto|lia].
+      + destruct (action_ok k (a0 :: a1)) eqn:AO; [|cbn [mach]; rewrite AO; reflexivity].
+        destruct (read_doc_join r tl (S f)) as [RDE|[BT RDE]]; [split; auto|lia| |];
+          rewrite RDE; [|symmetry; apply (mach_rej BT _ _ _ _ (Nat.le_refl _))].
+        cbn [mach]. rewrite AO.
         destruct r as [|d r'].
         * (* the action line is the last terminated line *)
           cbn [map app].
           destruct (nil_dec tl) as [->|NE]; [reflexivity|].
-          rewrite RD_nil_ne, tail_lline_ne; auto.
+          rewrite RD_nil_ne, tail_lline_ne; auto. cbn [mach].
           assert (F3 : 0 < f).
           { destruct tl; [congruence|]. simpl in F. lia. }
           destruct (tail_fits eager B tl) eqn:TF.
@@ -213,16 +238,16 @@ Section Framing.
   Qed.
 
   (* the line-level loop against the declarative statement *)
-  Lemma mach_decl : forall n ll k acc, length ll <= n ->
+  Lemma mach_decl : brk = false -> forall n ll k acc, length ll <= n ->
     mach k ll acc =
       match doc_lines k ll with
       | None => Rejected
       | Some ds => if existsb (is_invalid cls) ds then Rejected else Accepted (rev acc ++ objects cls ds)
       end.
   Proof.
-    induction n; intros ll k acc L.
-    - destruct ll; [|simpl in L; lia]. simpl. rewrite app_nil_r. reflexivity.
-    - destruct ll as [|x r]; [simpl; rewrite app_nil_r; reflexivity|].
+    intros BF. induction n; intros ll k acc L.
+    - destruct ll; [|simpl in L; lia]. simpl. rewrite BF, app_nil_r. reflexivity.
+    - destruct ll as [|x r]; [simpl; rewrite BF, app_nil_r; reflexivity|].
       destruct x as [a|]; [|reflexivity].
       destruct a as [|a0 a1].
       + simpl. apply IHn. simpl in L; lia.
@@ -243,22 +268,45 @@ Section Framing.
         * rewrite IHn; auto. destruct (doc_lines (S k) r'); reflexivity.
   Qed.
 
-  Theorem framing_exact : forall body,
-    run_body eager B classify body = spec_outcome cls eager B body.
+  Lemma sim_lines : forall body,
+    run_body_t brk eager B classify body = mach 0 (llines eager B body) [].
   Proof.
-    intros body. unfold run_body, spec_outcome, llines.
+    intros body. unfold run_body_t, llines.
     destruct (split_lines_ok body) as [J W].
     destruct (split_lines body) as [ls tl]. simpl in J, W.
     rewrite <- J at 2.
-    rewrite (run_sim (length ls) ls tl 0 [] (S (length body))); auto; [|rewrite J; lia].
-    rewrite (mach_decl (length (LL ls tl))); auto.
+    rewrite (run_sim (length ls) ls tl 0 [] (S (length body))); auto. rewrite J; lia.
   Qed.
 
-  Theorem run_total : forall body,
-    run_body eager B classify body <> Fuel /\ run_body eager B classify body <> Miss.
+  Lemma framing_exact_g : brk = false -> forall body,
+    run_body_t brk eager B classify body = spec_outcome cls eager B body.
   Proof.
-    intros body. rewrite framing_exact. unfold spec_outcome.
-    destruct (doc_lines 0 (llines eager B body)); [|split; discriminate].
-    destruct (existsb (is_invalid cls) l); split; discriminate.
+    intros BF body. rewrite sim_lines. unfold spec_outcome.
+    rewrite (mach_decl BF (length (llines eager B body))); auto.
+  Qed.
+
+  Lemma broken_rejects_g : brk = true -> forall body,
+    run_body_t brk eager B classify body = Rejected.
+  Proof.
+    intros BT body. rewrite sim_lines. apply (mach_rej BT (length (llines eager B body))); auto.
   Qed.
 End Framing.
+
+Theorem framing_exact : forall eager B, 2 <= B -> forall cls body,
+  run_body eager B (fun d => Some (cls d)) body = spec_outcome cls eager B body.
+Proof. intros eager B HB cls body. apply (framing_exact_g false eager B HB cls eq_refl). Qed.
+
+Theorem run_total : forall eager B, 2 <= B -> forall cls body,
+  run_body eager B (fun d => Some (cls d)) body <> Fuel /\
+  run_body eager B (fun d => Some (cls d)) body <> Miss.
+Proof.
+  intros eager B HB cls body. rewrite framing_exact by assumption. unfold spec_outcome.
+  destruct (doc_lines 0 (llines eager B body)); [|split; discriminate].
+  destruct (existsb (is_invalid cls) l); split; discriminate.
+Qed.
+
+(* a body whose reader ends with an error other than io.EOF: whatever prefix arrived, the
+   request is rejected and nothing is stored (the outcome is never Accepted, Fuel or Miss) *)
+Theorem broken_rejects : forall eager B, 2 <= B -> forall cls prefix,
+  run_body_t true eager B (fun d => Some (cls d)) prefix = Rejected.
+Proof. intros eager B HB cls prefix. apply (broken_rejects_g true eager B HB cls eq_refl). Qed.
